@@ -30,6 +30,8 @@ class Harness:
         self.kind = "p" if key.startswith("p_") else "c"
         self.props = [p.strip() for p in meta.get("props", "").split(",") if p.strip()]
         self.tier = meta.get("tier", "quick")
+        # optional narrower property list for the quick tier (expensive harnesses)
+        self.quick_props = [p.strip() for p in meta.get("quick_props", "").split(",") if p.strip()] or self.props
         self.layer = meta.get("layer", "?")
         self.funcs = meta.get("funcs", "")
         self.sym = meta.get("sym", "")
@@ -90,6 +92,8 @@ def select(hs, prop, tier, only=None):
         if prop != "ALL" and prop not in h.props:
             continue
         if tier == "quick" and h.tier != "quick":
+            continue
+        if tier == "quick" and prop != "ALL" and prop not in h.quick_props:
             continue
         if only and not any(o in h.name for o in only):
             continue
